@@ -187,6 +187,11 @@ func c20Case(c *Ctx, i int64) {
 			fatal("write: %v", err)
 		}
 		os.Chmod(fn, mode)
+		preexisting := k%5 == 2
+		if preexisting {
+			// an older, longer output file is in the way (re-running the tool on the same file)
+			os.WriteFile(fn+".lz4", bytes.Repeat([]byte("stale output "), len(data)/8+200), mode)
+		}
 		out, se, code, err := c20Run(dir, umask, nil, append(append([]string{"compress"}, fl.args()...), "f.dat")...)
 		zb, rerr := os.ReadFile(fn + ".lz4")
 		if err != nil || code != 0 || rerr != nil {
@@ -243,6 +248,11 @@ func c20Case(c *Ctx, i int64) {
 	} else {
 		fn := filepath.Join(dir, "f.dat")
 		os.Remove(fn)
+		if k%5 == 3 {
+			// the original (or an older, longer version of it) is still there when uncompressing
+			os.WriteFile(fn, bytes.Repeat([]byte("older version "), len(data)/8+200), mode)
+			c.Count("preexisting_output_cases", 1)
+		}
 		out, se, code, err := c20Run(dir, umask, nil, "uncompress", "f.dat.lz4")
 		got, rerr := os.ReadFile(fn)
 		if err != nil || code != 0 || rerr != nil || !bytes.Equal(got, data) {
@@ -274,6 +284,17 @@ func c20Case(c *Ctx, i int64) {
 			}
 		}
 		c.Count("multi_file_invocations", 1)
+		if ok {
+			// and back, again in one invocation (second file shorter than the first)
+			os.Remove(a)
+			os.Remove(b)
+			out2, se2, code2, err2 := c20Run(dir, umask, nil, "uncompress", "a.bin.lz4", "b.bin.lz4")
+			ga, ea := os.ReadFile(a)
+			gb, eb := os.ReadFile(b)
+			if err2 != nil || code2 != 0 || ea != nil || eb != nil || !bytes.Equal(ga, da) || !bytes.Equal(gb, db) {
+				c.Violation("multi-file-uncompress-failed", fmt.Sprintf("lz4c uncompress a.bin.lz4 b.bin.lz4 did not restore both files: exit %d err %v, a: %d/%d bytes, b: %d/%d bytes, stdout %q stderr %q", code2, err2, len(ga), len(da), len(gb), len(db), head(out2, 300), head(se2, 200)), det())
+			}
+		}
 		if !ok {
 			c.Violation("multi-file-compress-failed", fmt.Sprintf("lz4c compress %v a.bin b.bin did not produce two valid .lz4 files: exit %d err %v stdout %q stderr %q", fl.args(), code, err, head(out, 300), head(se, 200)), det())
 		}
